@@ -201,7 +201,9 @@ def bounded(tier, seed):
                     samples.append({"tables": tabs, "path": path, "iface": iface})
         # (patterns with a top-level alternation, a trailing '$' and a leading '^' too: the WHOLE header must match)
         hosts_tables = [[r"a\.example", r"(www\.)?example", r".*"], [r"(www\.)?example", r"a\.example"], [r"a.*", r"ab"], [],
-                        [r"a\.example|b\.example", r".*\.internal"], [r"^a\.example$", r"example|ab"]]
+                        [r"a\.example|b\.example", r".*\.internal"], [r"^a\.example$", r"example|ab"],
+                        # (the server's own name is not the Host header: a request without one matches the pattern of "")
+                        [r"testserver", r".*"], [r"testserver(:80)?", r""], [r".+"]]
         for t in hosts_tables:
             for host in (None, "", "a.example", "www.example", "example", "ab", "axexample", "a.example\n", "EXAMPLE",
                          "a.example:8000", "a.example.evil", "a.example.internal", "b.example", "xb.example", "abc", "xexample"):
